@@ -1,1 +1,144 @@
+(* C26/Properties.v -- property C26: BABE epoch data is taken from the block's own fork.
+   `fixed` is the model of epoch.go after fixes/C26-findancestor-loop.patch and
+   fixes/C26-config-fallback.patch; `prefix` is the pinned code (refutation witnesses only).
+   on_chain t h b: block b is on the ancestry of header h (h itself when it is imported, else its
+   parent and up); is_anc is reachability along parent links (C26_ancestry). *)
+From Coq Require Import NArith List Bool Arith.
+From Common Require Import Outcome.
 From C26 Require Import Model Proofs.
+Import ListNotations.
+Local Open Scope N_scope.
+
+(* ancestry used by the lookups = reachability along parent links of the block tree *)
+Theorem C26_ancestry : forall t a d, wf t = true ->
+  (is_anc t a d = true <-> exists k, Nat.iter k (parent t) d = a).
+Proof. exact is_anc_iter. Qed.
+Print Assumptions C26_ancestry.
+
+(* GetEpochDataRaw, every tree / announcement set / header, with fuel length+3 (so it
+   terminates after at most one round per ancestor): the result is exactly the specification:
+   genesis data for epoch 0, else the persisted data, else the payloads announced for this
+   epoch on the header's own ancestry; when there is none the lookup fails with an error. *)
+Theorem C26_epoch_data : forall s e h, wf (e_tree s) = true -> valid_hdr (e_tree s) h = true ->
+  match spec_epoch_data s e h with
+  | Some l => get_epoch_data fixed (enough_fuel (e_tree s)) s e h = Ok l
+  | None => get_epoch_data fixed (enough_fuel (e_tree s)) s e h = Err e_epoch_not_in_memory
+            \/ get_epoch_data fixed (enough_fuel (e_tree s)) s e h = Err e_hash_not_in_memory
+  end.
+Proof. exact epoch_data_spec. Qed.
+Print Assumptions C26_epoch_data.
+
+(* own fork: whatever the lookup returns was announced for that epoch by a block on the
+   header's own ancestry (or is the genesis / persisted definition) *)
+Theorem C26_own_fork : forall s e h l d, wf (e_tree s) = true -> valid_hdr (e_tree s) h = true ->
+  get_epoch_data fixed (enough_fuel (e_tree s)) s e h = Ok l -> In d l ->
+  (e = 0 /\ d = genesis_id) \/ alookup (dbe s) e = Some d \/
+  exists entries b, alookup (ned s) e = Some entries /\ In (b, d) entries /\ on_chain (e_tree s) h b = true.
+Proof.
+  intros s e h l d W V H Hd. pose proof (epoch_data_spec s e h W V) as S.
+  unfold spec_epoch_data in S. destruct (e =? 0) eqn:E0.
+  - rewrite S in H. injection H as <-. destruct Hd as [<-|[]]. left. apply N.eqb_eq in E0. auto.
+  - destruct (alookup (dbe s) e) as [d0|] eqn:D.
+    + rewrite S in H. injection H as <-. destruct Hd as [<-|[]]. right. left. reflexivity.
+    + destruct (announced (e_tree s) (ned s) e h) as [|x r] eqn:A.
+      * destruct S as [S|S]; rewrite S in H; discriminate.
+      * rewrite S in H. injection H as <-. right. right. apply announced_own_fork. rewrite A. exact Hd.
+Qed.
+Print Assumptions C26_own_fork.
+
+(* prompt failure: nothing persisted and nothing announced on the own ancestry for a non-zero
+   epoch => an error (never another fork's data, never out of fuel) *)
+Theorem C26_prompt_failure : forall s e h, wf (e_tree s) = true -> valid_hdr (e_tree s) h = true ->
+  e <> 0 -> alookup (dbe s) e = None -> announced (e_tree s) (ned s) e h = [] ->
+  exists c, get_epoch_data fixed (enough_fuel (e_tree s)) s e h = Err c.
+Proof.
+  intros s e h W V E D A. pose proof (epoch_data_spec s e h W V) as S.
+  unfold spec_epoch_data in S. apply N.eqb_neq in E. rewrite E, D, A in S.
+  destruct S as [S|S]; rewrite S; eauto.
+Qed.
+Print Assumptions C26_prompt_failure.
+
+(* completeness: a block of the own ancestry announced d for epoch e (nothing persisted) =>
+   the lookup succeeds and d is among the admissible answers *)
+Theorem C26_complete : forall s e h entries b d, wf (e_tree s) = true -> valid_hdr (e_tree s) h = true ->
+  e <> 0 -> alookup (dbe s) e = None ->
+  alookup (ned s) e = Some entries -> In (b, d) entries -> on_chain (e_tree s) h b = true ->
+  exists l, get_epoch_data fixed (enough_fuel (e_tree s)) s e h = Ok l /\ In d l.
+Proof.
+  intros s e h entries b d W V E D L I C. pose proof (epoch_data_spec s e h W V) as S.
+  pose proof (announced_complete (e_tree s) (ned s) e h entries b d L I C) as A.
+  unfold spec_epoch_data in S. apply N.eqb_neq in E. rewrite E, D in S.
+  destruct (announced (e_tree s) (ned s) e h) as [|x r]; [destruct A|].
+  exists (x :: r). auto.
+Qed.
+Print Assumptions C26_complete.
+
+(* GetConfigData: always succeeds, with the latest configuration at or before the epoch that is
+   persisted or announced on the header's own ancestry, else the genesis configuration *)
+Theorem C26_config : forall s e h, wf (e_tree s) = true -> valid_hdr (e_tree s) h = true ->
+  get_config fixed (enough_fuel (e_tree s)) s e h = Ok (spec_config s e h).
+Proof. intros. unfold get_config, spec_config. apply config_loop_spec; assumption. Qed.
+Print Assumptions C26_config.
+
+Theorem C26_config_latest_own_fork : forall s h k d, In d (spec_config_n s k h) ->
+  (d = genesis_id /\ forall j, (0 < j <= k)%nat -> nothing_at s h j)
+  \/ exists j, (0 < j <= k)%nat
+       /\ (alookup (dbc s) (N.of_nat j) = Some d
+           \/ (alookup (dbc s) (N.of_nat j) = None /\ In d (announced (e_tree s) (ncd s) (N.of_nat j) h)))
+       /\ forall j', (j < j' <= k)%nat -> nothing_at s h j'.
+Proof. exact spec_config_char. Qed.
+Print Assumptions C26_config_latest_own_fork.
+
+Theorem C26_announced_own_fork : forall t m e h d, In d (announced t m e h) ->
+  exists entries b, alookup m e = Some entries /\ In (b, d) entries /\ on_chain t h b = true.
+Proof. exact announced_own_fork. Qed.
+Print Assumptions C26_announced_own_fork.
+
+(* ---- non-vacuity: two forks announcing different data for epoch 1 ---- *)
+Definition ex_tree : tree := [(0%nat, 1); (1%nat, 2); (0%nat, 1); (3%nat, 4)].
+Definition ex_state : est :=
+  announce_epoch (announce_epoch (mkest ex_tree 3 [] [] [] []) 1 5) 3 6.
+Example C26_nonvacuous :
+  wf ex_tree = true /\
+  get_epoch_data fixed (enough_fuel ex_tree) ex_state 1 (Imp 2) = Ok [5] /\
+  get_epoch_data fixed (enough_fuel ex_tree) ex_state 1 (Imp 4) = Ok [6] /\
+  get_epoch_data fixed (enough_fuel ex_tree) ex_state 1 (Fresh 4 5) = Ok [6] /\
+  get_epoch_data fixed (enough_fuel ex_tree) ex_state 2 (Imp 4) = Err e_epoch_not_in_memory.
+Proof. vm_compute. repeat split; reflexivity. Qed.
+
+(* ---- the pinned code ---- *)
+(* findAncestor as pinned (parent of the ORIGINAL header re-read in every round) never returns
+   for a block of number >= 2 whose ancestry has no entry: out of fuel for EVERY fuel *)
+Theorem C26_findancestor_prefix_refuted : forall t entries i, wf t = true -> i <> O -> parent t i <> O ->
+  matches t entries (Imp i) = [] ->
+  forall fuel, find_anc prefix fuel t entries (Imp i) (Imp i) = OutOfFuel.
+Proof. exact find_anc_prefix_diverges. Qed.
+Print Assumptions C26_findancestor_prefix_refuted.
+
+(* concrete witness (replayed on the Go code as corpus case `tree 3 0,1;1,2;0,1 e3,5 - e,1,i2`):
+   block 3 on another fork announces epoch 1; looking epoch 1 up from block 2 hangs, although
+   the specification demands a prompt error *)
+Definition hang_tree : tree := [(0%nat, 1); (1%nat, 2); (0%nat, 1)].
+Definition hang_state : est := announce_epoch (mkest hang_tree 3 [] [] [] []) 3 5.
+Theorem C26_termination_prefix_refuted :
+  spec_epoch_data hang_state 1 (Imp 2) = None /\
+  forall fuel, get_epoch_data prefix fuel hang_state 1 (Imp 2) = OutOfFuel.
+Proof.
+  split; [vm_compute; reflexivity|].
+  apply (get_epoch_data_prefix_hangs hang_state 1 2 [(3%nat, 5)]); try (vm_compute; reflexivity);
+    vm_compute; discriminate.
+Qed.
+Print Assumptions C26_termination_prefix_refuted.
+
+(* GetConfigData as pinned: epoch 2 has a configuration announced on another fork only; the
+   lookup from block 5 errors instead of falling back to its own fork's epoch-1 configuration
+   (corpus case `tree 2 0,1;1,3;0,1;3,3;4,5 c1,7;c3,8;c2,9 - c,2,i5`) *)
+Definition cfg_tree : tree := [(0%nat, 1); (1%nat, 3); (0%nat, 1); (3%nat, 3); (4%nat, 5)].
+Definition cfg_state : est :=
+  announce_config (announce_config (announce_config (mkest cfg_tree 2 [] [] [] []) 1 7) 3 8) 2 9.
+Theorem C26_config_fallback_prefix_refuted :
+  spec_config cfg_state 2 (Imp 5) = [8] /\
+  get_config (mkvariant true false) (enough_fuel cfg_tree) cfg_state 2 (Imp 5) = Err e_hash_not_in_memory /\
+  get_config fixed (enough_fuel cfg_tree) cfg_state 2 (Imp 5) = Ok [8].
+Proof. vm_compute. repeat split; reflexivity. Qed.
+Print Assumptions C26_config_fallback_prefix_refuted.
